@@ -387,6 +387,31 @@ func ruleR22_5(c *Check) {
 		hasSet := containsSel(w, put, is.Body, selCall(setValue))
 		_, rets := is.Body.List[len(is.Body.List)-1].(*ast.ReturnStmt)
 		r.Check(hasSet && rets, put, "equal key: value replaced and Put returns", is.Cond, "the equal-key branch does not call setValue and return")
+		// … on every path: no return inside the branch before the value was replaced (an "already
+		// there, nothing to do" shortcut compares only part of the value struct and drops the rest)
+		ast.Inspect(is.Body, func(m ast.Node) bool {
+			rs, ok := m.(*ast.ReturnStmt)
+			if !ok {
+				return true
+			}
+			pre := false
+			explicit := func(n ast.Node) int {
+				k := 0
+				for _, g := range w.Guards(put, n) {
+					if !g.Implicit {
+						k++
+					}
+				}
+				return k
+			}
+			for _, s := range put.Sites(selCall(setValue)) {
+				if s.Pos() >= is.Body.Pos() && s.End() <= rs.Pos() && explicit(s) <= explicit(is.Body.List[0]) {
+					pre = true
+				}
+			}
+			r.Check(pre, put, "equal key: every return of the branch follows the replacement", rs, "Put returns from the equal-key branch without having called setValue")
+			return true
+		})
 		return true
 	})
 	// node creation after the top-down search
